@@ -470,6 +470,9 @@ type ComputedData struct {
 	Attrs     *ValueMap
 	code      []ByteCode
 	codeIndex int
+	// lazyKey: set when the code was compiled at first use (not where the value was defined): the syntax
+	// switches of the configuration it was compiled for, plus one. See syntaxKey.
+	lazyKey uint8
 }
 
 type FunctionData struct {
@@ -482,7 +485,23 @@ type FunctionData struct {
 	Self      *VMValue // 若存在self，即为bound method
 	code      []ByteCode
 	codeIndex int
+	// lazyKey: as in ComputedData
+	lazyKey uint8
 	// ctx       *Context
+}
+
+// syntaxKey packs the switches that decide how a text compiles (plus one, so that zero means "not
+// compiled lazily"). Code that was compiled at first use belongs to the switches in force then: when
+// the host has changed them since (a family disabled, statements disabled), the text is compiled again,
+// so that a disabled syntax stays disabled for restored functions and computed values as well.
+func (c *RollConfig) syntaxKey() uint8 {
+	var k uint8
+	for i, on := range []bool{c.EnableDiceWoD, c.EnableDiceCoC, c.EnableDiceFate, c.EnableDiceDoubleCross, c.DisableStmts, c.DisableNDice, c.DisableBitwiseOp} {
+		if on {
+			k |= 1 << uint(i)
+		}
+	}
+	return k + 1
 }
 
 type NativeFunctionDef func(ctx *Context, this *VMValue, params []*VMValue) *VMValue
@@ -1550,6 +1569,9 @@ func (v *VMValue) ComputedExecute(ctx *Context, detail *BufferSpan) *VMValue {
 		return nil
 	}
 
+	if cd.lazyKey != 0 && cd.lazyKey != vm.Config.syntaxKey() {
+		cd.code = nil // compiled at first use under other syntax switches
+	}
 	if cd.code == nil {
 		// Parse 会把算力计数清零；这里要保留调用链上已经累计的算力，否则递归永远不会触发上限
 		usedOps := vm.NumOpCount
@@ -1560,6 +1582,7 @@ func (v *VMValue) ComputedExecute(ctx *Context, detail *BufferSpan) *VMValue {
 		}
 		cd.code = vm.code
 		cd.codeIndex = vm.codeIndex
+		cd.lazyKey = vm.Config.syntaxKey()
 	} else {
 		vm.code = cd.code
 		vm.codeIndex = cd.codeIndex
@@ -1723,6 +1746,9 @@ func (v *VMValue) FuncInvokeRaw(ctx *Context, params []*VMValue, useUpCtxLocal b
 		return nil
 	}
 
+	if cd.lazyKey != 0 && cd.lazyKey != vm.Config.syntaxKey() {
+		cd.code = nil // compiled at first use under other syntax switches
+	}
 	if cd.code == nil {
 		// Parse 会把算力计数清零；这里要保留调用链上已经累计的算力，否则递归永远不会触发上限
 		usedOps := vm.NumOpCount
@@ -1738,6 +1764,7 @@ func (v *VMValue) FuncInvokeRaw(ctx *Context, params []*VMValue, useUpCtxLocal b
 		}
 		cd.code = vm.code
 		cd.codeIndex = vm.codeIndex
+		cd.lazyKey = vm.Config.syntaxKey()
 	} else {
 		vm.code = cd.code
 		vm.codeIndex = cd.codeIndex
